@@ -303,3 +303,289 @@ package walstore
 //@   ensures accepts_vote0: len(payload) == 51 && payload[0] == 1 && (payload[1] == 3 || payload[1] == 4) && payload[50] == 0 ==> result1 == nil
 //@   ensures accepts_vote1: len(payload) == 83 && payload[0] == 1 && (payload[1] == 3 || payload[1] == 4) && payload[50] == 1 ==> result1 == nil
 //@   ensures accepts_proposal0: len(payload) == 59 && payload[0] == 1 && payload[1] == 2 && payload[58] == 0 ==> result1 == nil
+
+// ---- WAL writer: a failed append never leaves part of the batch behind --------------------------
+//@ extern func errors.Join
+//@   ensures (result == nil) <==> (forall i int :: 0 <= i && i < len(errs) ==> errs[i] == nil)
+//@ extern func errors.Is
+//@ extern func path/filepath.Join
+//@ extern func sync.(*WaitGroup).Add
+//@ extern func sync.(*WaitGroup).Wait
+
+// The log file operations are the file system's: trusted entry points that record their calls.
+//@ func repairWALTail
+//@   trusted
+//@   logged
+//@ extern func github.com/cockroachdb/pebble/v2/wal.Manager.Create
+//@   logged as Create
+//@   ensures result1 == nil ==> result0 != nil
+//@ ghost var lastWriteOffset int64
+//@ extern func github.com/cockroachdb/pebble/v2/wal.Writer.WriteRecord
+//@   logged as WriteRecord
+//@   modifies *opts.Err
+//@   sets lastWriteOffset = result0
+//@ extern func github.com/cockroachdb/pebble/v2/wal.Writer.Close
+//@   logged as WriterClose
+
+//@ func (*walWriter).closeCurrent
+//@   props C14
+//@   arith int
+//@   requires w != nil
+//@   modifies w.writer, w.currentWALNum, w.currentWALSyncedOffset
+//@   assigns calls_WriterClose
+//@   ensures closed: w.writer == nil
+//@   ensures once: calls_WriterClose == old(calls_WriterClose) + ite(old(w.writer) == nil, 0, 1)
+//@   ensures noop: old(w.writer) == nil ==> result == nil && w.currentWALNum == old(w.currentWALNum) && w.currentWALSyncedOffset == old(w.currentWALSyncedOffset)
+
+// Close the current file; if closing failed or the caller knows of trailing bytes (forceRepair),
+// truncate the file back to repairOffset. A failed truncation is remembered (repairRequired) and
+// reported; it blocks every later append (see ensureWriter).
+//@ func (*walWriter).closeAndRepairCurrent
+//@   props C14
+//@   arith int
+//@   requires w != nil
+//@   modifies w.writer, w.currentWALNum, w.currentWALSyncedOffset, w.repairRequired
+//@   assigns calls_WriterClose, calls_repairWALTail, arg_repairWALTail_walPath, arg_repairWALTail_syncedOffset
+//@   ensures nowriter: old(w.writer) == nil ==> result == nil && calls_repairWALTail == old(calls_repairWALTail) && w.repairRequired == old(w.repairRequired)
+//@   ensures closed: w.writer == nil
+//@   ensures forced: old(w.writer) != nil && forceRepair ==> calls_repairWALTail == old(calls_repairWALTail) + 1 && arg_repairWALTail_syncedOffset == repairOffset
+//@   ensures atmostonce: calls_repairWALTail == old(calls_repairWALTail) || (calls_repairWALTail == old(calls_repairWALTail) + 1 && arg_repairWALTail_syncedOffset == repairOffset)
+//@   ensures clean: old(w.writer) != nil && result == nil ==> !w.repairRequired
+//@   ensures blocked: w.repairRequired && old(w.writer) != nil ==> result != nil
+
+//@ func (*walWriter).abortUncommitted
+//@   props C14
+//@   arith int
+//@   logged
+//@   requires w != nil
+//@   modifies w.writer, w.currentWALNum, w.currentWALSyncedOffset, w.repairRequired
+//@   assigns calls_WriterClose, calls_repairWALTail, arg_repairWALTail_walPath, arg_repairWALTail_syncedOffset
+//@   ensures truncates: old(w.writer) != nil ==> calls_repairWALTail == old(calls_repairWALTail) + 1 && arg_repairWALTail_syncedOffset == old(w.currentWALSyncedOffset)
+//@   ensures closed: w.writer == nil
+//@   ensures blocked: w.repairRequired && old(w.writer) != nil ==> result != nil
+
+//@ func (*walWriter).ensureWriter
+//@   props C14
+//@   arith int
+//@   requires w != nil && w.manager != nil
+//@   requires nowrap: w.nextWALNum < 18446744073709551615
+//@   modifies w.writer, w.currentWALNum, w.nextWALNum, w.currentWALSyncedOffset
+//@   assigns calls_Create, arg_Create_wn, arg_Create_jobID
+//@   ensures refuses: old(w.repairRequired) ==> result2 != nil && calls_Create == old(calls_Create) && w.writer == old(w.writer)
+//@   ensures reuses: !old(w.repairRequired) && old(w.writer) != nil ==> result2 == nil && result1 == old(w.writer) && result0 == old(w.currentWALNum) && calls_Create == old(calls_Create) && w.currentWALSyncedOffset == old(w.currentWALSyncedOffset)
+//@   ensures creates: !old(w.repairRequired) && old(w.writer) == nil ==> calls_Create == old(calls_Create) + 1 && arg_Create_wn == old(w.nextWALNum)
+//@   ensures created: !old(w.repairRequired) && old(w.writer) == nil && result2 == nil ==> w.writer != nil && result1 == w.writer && result0 == old(w.nextWALNum) && w.currentWALNum == old(w.nextWALNum) && w.nextWALNum == old(w.nextWALNum) + 1 && w.currentWALSyncedOffset == 0
+//@   ensures failed: result2 != nil ==> w.writer == old(w.writer) && w.nextWALNum == old(w.nextWALNum)
+//@   ensures ok: result2 == nil ==> result1 != nil && result1 == w.writer && result0 == w.currentWALNum && !w.repairRequired
+
+// appendSync: success means the record was written and synced and the synced offset is the one
+// the writer reported; any failure after the writer was obtained truncates the file back to the
+// last synced offset (abortUncommitted), so no part of the failed batch stays durable.
+//@ func (*walWriter).appendSync
+//@   props C14
+//@   arith int
+//@   requires w != nil && w.manager != nil
+//@   requires nowrap: w.nextWALNum < 18446744073709551615
+//@   modifies w.writer, w.currentWALNum, w.nextWALNum, w.currentWALSyncedOffset, w.repairRequired
+//@   assigns calls_Create, arg_Create_wn, arg_Create_jobID, calls_WriteRecord, arg_WriteRecord_p, arg_WriteRecord_opts, arg_WriteRecord_ref, calls_abortUncommitted, calls_WriterClose, calls_repairWALTail, arg_repairWALTail_walPath, arg_repairWALTail_syncedOffset, lastWriteOffset
+//@   ensures committed: result1 == nil <==> result0.committed
+//@   ensures success: result1 == nil ==> calls_WriteRecord == old(calls_WriteRecord) + 1 && arg_WriteRecord_p == encodedBatch && calls_abortUncommitted == old(calls_abortUncommitted)
+//@   ensures success_state: result1 == nil ==> w.writer != nil && result0.walNum == w.currentWALNum && !w.repairRequired && w.currentWALSyncedOffset == lastWriteOffset
+//@   ensures failure: result1 != nil ==> calls_abortUncommitted == old(calls_abortUncommitted) + ite(calls_WriteRecord == old(calls_WriteRecord), 0, 1)
+//@   ensures atmostone: calls_WriteRecord <= old(calls_WriteRecord) + 1
+//@   ensures blocked: old(w.repairRequired) ==> result1 != nil && calls_WriteRecord == old(calls_WriteRecord)
+
+//@ func (*walWriter).minLiveWALNum
+//@   props C14
+//@   arith int
+//@   requires w != nil
+//@   ensures result <= w.nextWALNum && (w.writer != nil ==> result <= w.currentWALNum)
+//@   ensures result == w.nextWALNum || (w.writer != nil && result == w.currentWALNum)
+
+//@ func (*walWriter).rotateAfterSynced
+//@   props C14
+//@   arith int
+//@   logged
+//@   requires w != nil
+//@   modifies w.writer, w.currentWALNum, w.currentWALSyncedOffset, w.repairRequired
+//@   assigns calls_WriterClose, calls_repairWALTail, arg_repairWALTail_walPath, arg_repairWALTail_syncedOffset
+//@   ensures closed: w.writer == nil
+//@   ensures offset: calls_repairWALTail == old(calls_repairWALTail) || (calls_repairWALTail == old(calls_repairWALTail) + 1 && arg_repairWALTail_syncedOffset == old(w.currentWALSyncedOffset))
+
+// ---- store: the watermark is durable before any log file is removed -----------------------------
+//@ ghost var watermarkWritten bool
+//@ func writePruneWatermark
+//@   trusted
+//@   logged
+//@   sets watermarkWritten = (result == nil)
+//@ func (*tendermintWALStore).cleanupObsoleteWALs
+//@   trusted
+//@   logged
+//@ func (*tendermintWALStore).removeObsoleteWALFiles
+//@   props C14
+//@   arith int
+//@   requires s != nil && s.wal != nil
+//@   modifies s.pruneRecordsSinceCleanup, s.wal.writer, s.wal.currentWALNum, s.wal.currentWALSyncedOffset, s.wal.repairRequired
+//@   assigns calls_writePruneWatermark, arg_writePruneWatermark_walDir, arg_writePruneWatermark_height, watermarkWritten, calls_rotateAfterSynced, calls_cleanupObsoleteWALs, calls_WriterClose, calls_repairWALTail, arg_repairWALTail_walPath, arg_repairWALTail_syncedOffset
+//@   ensures watermark_first: calls_cleanupObsoleteWALs != old(calls_cleanupObsoleteWALs) ==> calls_writePruneWatermark == old(calls_writePruneWatermark) + 1 && watermarkWritten && arg_writePruneWatermark_height == s.prunedUpToHeight && arg_writePruneWatermark_walDir == s.wal.dir
+//@   ensures rotate_first: calls_cleanupObsoleteWALs != old(calls_cleanupObsoleteWALs) ==> calls_rotateAfterSynced == old(calls_rotateAfterSynced) + 1 && calls_cleanupObsoleteWALs == old(calls_cleanupObsoleteWALs) + 1
+//@   ensures failed_watermark: calls_writePruneWatermark != old(calls_writePruneWatermark) && !watermarkWritten ==> result != nil && calls_cleanupObsoleteWALs == old(calls_cleanupObsoleteWALs) && calls_rotateAfterSynced == old(calls_rotateAfterSynced)
+//@   ensures amortised: old(s.pruneRecordsSinceCleanup) + pruneRecordCount < 256 ==> calls_writePruneWatermark == old(calls_writePruneWatermark) && calls_cleanupObsoleteWALs == old(calls_cleanupObsoleteWALs) && result == nil
+//@   ensures nothing: pruneRecordCount == 0 ==> s.pruneRecordsSinceCleanup == old(s.pruneRecordsSinceCleanup) && result == nil
+
+// ---- store: pending records become visible only after a successful, synced append -----------------
+//@ func encodeBatch
+//@   trusted
+// What Flush makes visible: committed entries above the watermark are indexed, prune records raise
+// the watermark; the index never holds a height at or below the watermark and the watermark never
+// goes down.
+//@ func (*tendermintWALStore).updateIndexesFromCommittedRecords
+//@   props C14
+//@   arith int
+//@   logged
+//@   requires s != nil && s.entriesByHeight != nil && s.walFilesByHeight != nil && s.walHeightRefs != nil
+//@   requires inv: liveAbove(s)
+//@   requires kinds: forall i int :: 0 <= i && i < len(records) ==> (records[i].Kind == 1 ==> 1 <= records[i].EntryKind && records[i].EntryKind <= 5)
+//@   modifies maps
+//@   modifies s.prunedUpToHeight
+//@   modifies allof wal.Entry
+//@   loop 1: invariant idx: -1 <= rangeindex && rangeindex < len(records)
+//@   loop 1: invariant maps_nonnil: s.entriesByHeight != nil && s.walFilesByHeight != nil && s.walHeightRefs != nil
+//@   loop 1: invariant inv: liveAbove(s)
+//@   loop 1: invariant mono: s.prunedUpToHeight >= old(s.prunedUpToHeight)
+//@   loop 1: invariant kinds: forall i int :: 0 <= i && i < len(records) ==> (records[i].Kind == 1 ==> 1 <= records[i].EntryKind && records[i].EntryKind <= 5)
+//@   ensures inv: liveAbove(s)
+//@   ensures mono: s.prunedUpToHeight >= old(s.prunedUpToHeight)
+//@ func countPruneRecords
+//@   trusted
+//@ func (*tendermintWALStore).flushLocked
+//@   props C14
+//@   arith int
+//@   requires s != nil && s.wal != nil && s.wal.manager != nil
+//@   requires nowrap: s.wal.nextWALNum < 18446744073709551615
+//@   requires store: indexMaps(s) && liveAbove(s) && pendingKinds(s)
+//@   modifies *
+//@   assigns calls_updateIndexesFromCommittedRecords, arg_updateIndexesFromCommittedRecords_walNum, arg_updateIndexesFromCommittedRecords_records, calls_Create, arg_Create_wn, arg_Create_jobID, calls_WriteRecord, arg_WriteRecord_p, arg_WriteRecord_opts, arg_WriteRecord_ref, calls_abortUncommitted, calls_WriterClose, calls_repairWALTail, arg_repairWALTail_walPath, arg_repairWALTail_syncedOffset, lastWriteOffset, calls_writePruneWatermark, arg_writePruneWatermark_walDir, arg_writePruneWatermark_height, watermarkWritten, calls_rotateAfterSynced, calls_cleanupObsoleteWALs
+//@   ensures closed: old(s.closed) ==> result != nil && calls_WriteRecord == old(calls_WriteRecord) && calls_updateIndexesFromCommittedRecords == old(calls_updateIndexesFromCommittedRecords)
+//@   ensures empty: !old(s.closed) && old(len(s.pendingRecords)) == 0 ==> result == nil && calls_WriteRecord == old(calls_WriteRecord) && calls_updateIndexesFromCommittedRecords == old(calls_updateIndexesFromCommittedRecords)
+//@   ensures index_after_sync: calls_updateIndexesFromCommittedRecords != old(calls_updateIndexesFromCommittedRecords) ==> calls_updateIndexesFromCommittedRecords == old(calls_updateIndexesFromCommittedRecords) + 1 && calls_WriteRecord == old(calls_WriteRecord) + 1 && calls_abortUncommitted == old(calls_abortUncommitted)
+//@   ensures index_args: calls_updateIndexesFromCommittedRecords != old(calls_updateIndexesFromCommittedRecords) ==> arg_updateIndexesFromCommittedRecords_records == old(s.pendingRecords)
+//@   ensures failed_append: calls_abortUncommitted != old(calls_abortUncommitted) ==> result != nil && calls_updateIndexesFromCommittedRecords == old(calls_updateIndexesFromCommittedRecords)
+//@   ensures success_visible: result == nil && !old(s.closed) && old(len(s.pendingRecords)) > 0 ==> calls_updateIndexesFromCommittedRecords == old(calls_updateIndexesFromCommittedRecords) + 1
+//@   ensures store: liveAbove(s) && s.prunedUpToHeight >= old(s.prunedUpToHeight)
+//@   ensures kept_on_failure: calls_updateIndexesFromCommittedRecords == old(calls_updateIndexesFromCommittedRecords) ==> s.pendingRecords == old(s.pendingRecords) && s.nextBatchSeqNum == old(s.nextBatchSeqNum)
+//@   ensures drained: calls_updateIndexesFromCommittedRecords != old(calls_updateIndexesFromCommittedRecords) ==> len(s.pendingRecords) == 0 && s.nextBatchSeqNum == uint64(old(s.nextBatchSeqNum) + uint64(uint32(old(len(s.pendingRecords)))))
+
+// ---- store: what is queued ---------------------------------------------------------------------
+// A prune request never queues a second prune record: it raises the height of the queued one.
+// Heights at or below the watermark are ignored (they are already pruned).
+//@ func (*tendermintWALStore).DeleteWALEntries
+//@   props C14
+//@   arith int
+//@   requires s != nil
+//@   requires one_prune: forall i int, j int :: 0 <= i && i < j && j < len(s.pendingRecords) ==> !(s.pendingRecords[i].Kind == 2 && s.pendingRecords[j].Kind == 2)
+//@   modifies *
+//@   loop 1: invariant idx: -1 <= rangeindex && rangeindex < len(s.pendingRecords)
+//@   loop 1: invariant same: s.pendingRecords == old(s.pendingRecords) && s.closed == old(s.closed) && s.prunedUpToHeight == old(s.prunedUpToHeight)
+//@   loop 1: invariant none_yet: forall k int :: 0 <= k && k <= rangeindex ==> s.pendingRecords[k].Kind != 2
+//@   loop 1: invariant untouched: forall k int :: 0 <= k && k < len(s.pendingRecords) ==> s.pendingRecords[k].Kind == old(s.pendingRecords[k].Kind) && s.pendingRecords[k].Height == old(s.pendingRecords[k].Height)
+//@   ensures closed: old(s.closed) ==> result != nil && s.pendingRecords == old(s.pendingRecords)
+//@   ensures ignored: !old(s.closed) && height <= old(s.prunedUpToHeight) ==> result == nil && s.pendingRecords == old(s.pendingRecords) && (forall k int :: 0 <= k && k < len(s.pendingRecords) ==> s.pendingRecords[k].Kind == old(s.pendingRecords[k].Kind) && s.pendingRecords[k].Height == old(s.pendingRecords[k].Height))
+//@   ensures merged: !old(s.closed) && height > old(s.prunedUpToHeight) && (exists k int :: 0 <= k && k < old(len(s.pendingRecords)) && old(s.pendingRecords[k].Kind) == 2) ==> s.pendingRecords == old(s.pendingRecords) && (forall k int :: 0 <= k && k < len(s.pendingRecords) ==> s.pendingRecords[k].Kind == old(s.pendingRecords[k].Kind) && s.pendingRecords[k].Height == ite(s.pendingRecords[k].Kind == 2, max(old(s.pendingRecords[k].Height), height), old(s.pendingRecords[k].Height)))
+//@   ensures appended: !old(s.closed) && height > old(s.prunedUpToHeight) && (forall k int :: 0 <= k && k < old(len(s.pendingRecords)) ==> old(s.pendingRecords[k].Kind) != 2) ==> len(s.pendingRecords) == old(len(s.pendingRecords)) + 1 && s.pendingRecords[len(s.pendingRecords) - 1].Kind == 2 && s.pendingRecords[len(s.pendingRecords) - 1].Height == height && (forall k int :: 0 <= k && k < old(len(s.pendingRecords)) ==> s.pendingRecords[k].Kind == old(s.pendingRecords[k].Kind) && s.pendingRecords[k].Height == old(s.pendingRecords[k].Height))
+//@   ensures one_prune: forall i int, j int :: 0 <= i && i < j && j < len(s.pendingRecords) ==> !(s.pendingRecords[i].Kind == 2 && s.pendingRecords[j].Kind == 2)
+//@   ensures watermark: s.prunedUpToHeight == old(s.prunedUpToHeight)
+//@   ensures kinds: old(pendingKinds(s)) ==> pendingKinds(s)
+
+// The height of a log entry is a function of the entry (entries are not mutated while queued).
+//@ ghost func entryHeight(e _) uint64
+//@ extern func github.com/NethermindEth/juno/consensus/types/wal.Entry.GetHeight
+//@   ensures uint64(result) == entryHeight(recv)
+//@ func (*walRecordEnvelope).setEntry
+//@   trusted
+//@   requires e != nil
+//@   modifies e.EntryKind, e.StartHeight, e.ProposalEntry, e.PrevoteEntry, e.PrecommitEntry, e.TimeoutEntry
+//@   ensures result == nil ==> 1 <= e.EntryKind && e.EntryKind <= 5
+
+// An entry at or below the prune watermark is never queued (it could only revive a pruned height).
+//@ func (*tendermintWALStore).SetWALEntry
+//@   props C14
+//@   arith int
+//@   requires s != nil
+//@   modifies *
+//@   ensures closed: old(s.closed) ==> result != nil && s.pendingRecords == old(s.pendingRecords)
+//@   ensures ignored: entryHeight(entry) <= uint64(old(s.prunedUpToHeight)) ==> s.pendingRecords == old(s.pendingRecords)
+//@   ensures queued: s.pendingRecords != old(s.pendingRecords) ==> result == nil && entryHeight(entry) > uint64(s.prunedUpToHeight) && len(s.pendingRecords) == old(len(s.pendingRecords)) + 1 && s.pendingRecords[len(s.pendingRecords) - 1].Kind == 1 && 1 <= s.pendingRecords[len(s.pendingRecords) - 1].EntryKind && s.pendingRecords[len(s.pendingRecords) - 1].EntryKind <= 5
+//@   ensures kept: forall k int :: 0 <= k && k < old(len(s.pendingRecords)) ==> s.pendingRecords[k].Kind == old(s.pendingRecords[k].Kind) && s.pendingRecords[k].Height == old(s.pendingRecords[k].Height)
+//@   ensures watermark: s.prunedUpToHeight == old(s.prunedUpToHeight) && s.closed == old(s.closed)
+//@   ensures kinds: old(pendingKinds(s)) ==> pendingKinds(s)
+
+// ---- store index: pruned heights never come back ---------------------------------------------
+//@ func (*tendermintWALStore).deleteLiveHeight
+//@   props C14
+//@   arith int
+//@   requires s != nil && s.entriesByHeight != nil && s.walFilesByHeight != nil && s.walHeightRefs != nil
+//@   modifies maps
+//@   ensures gone: !in(s.entriesByHeight, height)
+//@   ensures others: forall k uint64 :: k != uint64(height) ==> (in(s.entriesByHeight, k) <==> old(in(s.entriesByHeight, k))) && s.entriesByHeight[k] == old(s.entriesByHeight[k])
+
+// Queued records are well-formed: entry records carry a known entry kind.
+//@ pure func pendingKinds(s *tendermintWALStore) bool = forall i int :: 0 <= i && i < len(s.pendingRecords) ==> (s.pendingRecords[i].Kind == 1 || s.pendingRecords[i].Kind == 2) && (s.pendingRecords[i].Kind == 1 ==> 1 <= s.pendingRecords[i].EntryKind && s.pendingRecords[i].EntryKind <= 5)
+//@ pure func indexMaps(s *tendermintWALStore) bool = s.entriesByHeight != nil && s.walFilesByHeight != nil && s.walHeightRefs != nil
+// The index invariant: no live height at or below the watermark.
+//@ pure func liveAbove(s *tendermintWALStore) bool = forall h uint64 :: in(s.entriesByHeight, h) ==> h > uint64(s.prunedUpToHeight)
+
+// Pruning raises the watermark (never lowers it), removes exactly the heights at or below it and
+// leaves the entries of every other height as they were.
+//@ func (*tendermintWALStore).pruneLiveEntriesUpTo
+//@   props C14
+//@   arith int
+//@   requires s != nil && s.entriesByHeight != nil && s.walFilesByHeight != nil && s.walHeightRefs != nil
+//@   requires inv: liveAbove(s)
+//@   modifies maps
+//@   modifies s.prunedUpToHeight
+//@   loop 1: invariant mark: s.prunedUpToHeight == height && height > old(s.prunedUpToHeight)
+//@   loop 1: invariant maps_nonnil: s.entriesByHeight == old(s.entriesByHeight) && s.walFilesByHeight != nil && s.walHeightRefs != nil
+//@   loop 1: invariant vis: forall k uint64 :: visited(k) ==> (in(s.entriesByHeight, k) <==> (old(in(s.entriesByHeight, k)) && k > uint64(height)))
+//@   loop 1: invariant unvis: forall k uint64 :: !visited(k) ==> (in(s.entriesByHeight, k) <==> old(in(s.entriesByHeight, k)))
+//@   loop 1: invariant vals: forall k uint64 :: in(s.entriesByHeight, k) ==> s.entriesByHeight[k] == old(s.entriesByHeight[k])
+//@   ensures watermark: s.prunedUpToHeight == max(old(s.prunedUpToHeight), height)
+//@   ensures inv: liveAbove(s)
+//@   ensures removed: forall k uint64 :: in(s.entriesByHeight, k) <==> (old(in(s.entriesByHeight, k)) && k > uint64(s.prunedUpToHeight))
+//@   ensures kept: forall k uint64 :: in(s.entriesByHeight, k) ==> s.entriesByHeight[k] == old(s.entriesByHeight[k])
+
+//@ extern func slices.Contains
+//@ func (*walNumSet).addIfMissing
+//@   trusted
+//@   requires s != nil
+//@   modifies s.first, s.rest
+
+// A live entry is appended at the end of its height's list: order within a height is append order.
+//@ func (*tendermintWALStore).addLiveEntry
+//@   props C14
+//@   arith int
+//@   requires s != nil && s.entriesByHeight != nil && s.walFilesByHeight != nil && s.walHeightRefs != nil
+//@   modifies maps
+//@   modifies s.entriesByHeight[entryHeight(entry)][len(s.entriesByHeight[entryHeight(entry)])..cap(s.entriesByHeight[entryHeight(entry)])]
+//@   ensures present: in(s.entriesByHeight, entryHeight(entry))
+//@   ensures appended: len(s.entriesByHeight[entryHeight(entry)]) == old(len(s.entriesByHeight[entryHeight(entry)])) + 1 && s.entriesByHeight[entryHeight(entry)][old(len(s.entriesByHeight[entryHeight(entry)]))] == entry
+//@   ensures order_kept: forall j int :: 0 <= j && j < old(len(s.entriesByHeight[entryHeight(entry)])) ==> s.entriesByHeight[entryHeight(entry)][j] == old(s.entriesByHeight[entryHeight(entry)][j])
+//@   ensures others: forall k uint64 :: k != entryHeight(entry) ==> (in(s.entriesByHeight, k) <==> old(in(s.entriesByHeight, k))) && s.entriesByHeight[k] == old(s.entriesByHeight[k])
+
+//@ func (walRecordEnvelope).entry
+//@   props C14
+//@   arith int
+//@   requires known: 1 <= e.EntryKind && e.EntryKind <= 5
+
+// Replay of one stored record: an entry at or below the watermark is dropped, a prune record
+// raises the watermark; the index invariant is kept.
+//@ func (*tendermintWALStore).applyEncodedRecord
+//@   props C14
+//@   arith int
+//@   coretypes
+//@   requires s != nil && s.entriesByHeight != nil && s.walFilesByHeight != nil && s.walHeightRefs != nil
+//@   requires inv: liveAbove(s)
+//@   modifies *
+//@   ensures inv: liveAbove(s)
+//@   ensures mono: s.prunedUpToHeight >= old(s.prunedUpToHeight)
+//@   ensures maps_nonnil: s.entriesByHeight != nil && s.walFilesByHeight != nil && s.walHeightRefs != nil
